@@ -396,6 +396,11 @@ func GenModel(t *rapid.T, opts ModelOpts) (*t1ref.Font, map[string]bool) {
 	}
 	for i := 0; i < n; i++ {
 		name := GenGlyphName(t, opts.Unusual)
+		// a conforming font cannot name a glyph like a procedure or operator
+		// that its own CharStrings section executes by name (RD, ND, end ...)
+		if isShadow(name) || name == "NP" || name == "-|" || name == "|-" || name == "|" {
+			name = "g" + name
+		}
 		if seen[name] {
 			continue
 		}
